@@ -46,6 +46,21 @@ def solve(assertions, timeout_ms, want_smt2=False):
     return out
 
 
+def solve_ladder(build, timeout_ms):
+    """build(ctx_kwargs) -> list of assertions. First the exact semantics; if z3 answers `unknown`, retry with the
+    order relations abstracted to uninterpreted predicates (sound for `unsat` only)."""
+    res = solve(build({}), timeout_ms)
+    res['ladder'] = 'exact'
+    if res['verdict'] == 'unknown':
+        res2 = solve(build({'abstract_order': True}), timeout_ms)
+        if res2['verdict'] == 'unsat':
+            res2['ladder'] = 'abstract-order'
+            res2['ms'] += res['ms']
+            return res2
+        res['ms'] += res2['ms']
+    return res
+
+
 def second_opinions(smt2, timeout_s=20):
     """Re-decide an exported VC with /usr/bin/z3 (4.8.12) and cvc5. '(error' => inconclusive."""
     res = {}
